@@ -2,7 +2,9 @@
 (* Validation of recorded round trips Deserialiser -> Serialiser -> Deserialiser (C06).      *)
 (* One line per byte string: whether the deserialiser parsed it to completion, the data      *)
 (* units it read (parse code, fragment_slice_count or -1), whether the description could be  *)
-(* serialised again, whether the bytes and the re-read description were identical.           *)
+(* serialised again, whether the bytes and the re-read description were identical; hvx/hve/  *)
+(* hvg: for streams built from a history of Deser.tla, the huge values (base-2^15 limbs) the   *)
+(* history's codes stand for and the integers of 31 bits or more the description reports.     *)
 EXTENDS DeserOps, Json, IOUtils, TLCExt
 
 Log == ndJsonDeserialize(IOEnv.TRACE_FILE)
@@ -32,6 +34,9 @@ Verdict(e) ==
   ELSE IF ~e.ser_ok THEN [c |-> "Reserialises", alarm |-> TRUE]
   ELSE IF ~e.same_bytes THEN [c |-> "SameBytes", alarm |-> TRUE]
   ELSE IF ~(e.redes_ok /\ e.same_desc) THEN [c |-> "SameDescription", alarm |-> TRUE]
+  \* spec-only: the huge exp-Golomb values the stream was built from (limbs derived by Deser.tla from the codes)
+  \* are the huge values the description reports
+  ELSE IF e.hvx /\ e.hve # e.hvg THEN [c |-> "HugeValuesRead", alarm |-> FALSE]
   \* spec-only: the units the parser reports form a history the outcome machine completes on
   ELSE IF ~(\A k \in 1..Len(e.seqs) : Len(e.seqs[k]) >= 1 /\ e.seqs[k][Len(e.seqs[k])][1] = 16)
        THEN [c |-> "SequenceEndsWithEOS", alarm |-> FALSE]
